@@ -333,7 +333,7 @@ type c02 struct{}
 func (c02) ID() string    { return "C02" }
 func (c02) Level() string { return "exploration" }
 func (c02) Rule() string {
-	return "cases = constraint sets built through the public constructors: every single cardinality constructor call over 3 variables (AtLeast1/AtMost1/Exactly1 on every literal set, CardConstr with every degree -1..len+1) alone, with every unit, and every ordered pair; every single PB constructor call over 3 variables (PropClause/AtLeast/AtMost, GtEq/LtEq/Eq with every weight vector in [-2..2] and every degree -1..sum|w|+1) alone and with every unit; every ordered pair over 2 variables; pairs of >= constraints over 3 variables; one constraint with strictly decreasing coefficients, and one with every non-increasing weight vector over {1,2,3} on 4 variables, with every subset of its variables fixed by units; seeded catalogues (VERIF_SEED) of 1500 clause/cardinality mixes and 1500 weighted-PB problems over 5..10 variables, each with all its one-edit neighbours. Each case runs once per heuristic choice list (<=1 deviation) and is judged against integer arithmetic on the constraints as written. Non-trivial = the parser did not decide the case alone (status Indet after parsing) or it decided Unsat."
+	return "cases = constraint sets built through the public constructors: every single cardinality constructor call over 3 variables (AtLeast1/AtMost1/Exactly1 on every literal set, CardConstr with every degree -1..len+1) alone, with every unit, and every ordered pair; every single PB constructor call over 3 variables (PropClause/AtLeast/AtMost, GtEq/LtEq/Eq with every weight vector in [-2..2] and every degree -1..sum|w|+1) alone and with every unit; every ordered pair over 2 variables; pairs of >= constraints over 3 variables; one constraint with strictly decreasing coefficients, and one with every non-increasing weight vector over {1,2,3} on 4 variables, with every subset of its variables fixed by units; seeded catalogues (VERIF_SEED) of 1500 clause/cardinality mixes and 1500 weighted-PB problems over 5..10 variables, each with all its one-edit neighbours; front pb2 (reused values): the PB families again with the caller keeping its PBConstr values (equal constraints are one shared value, the first constraint listed twice, the list parsed twice). Each case runs once per heuristic choice list (<=1 deviation) and is judged against integer arithmetic on the constraints as written. Non-trivial = the parser did not decide the case alone (status Indet after parsing) or it decided Unsat."
 }
 func (c02) Assumptions() []string {
 	return []string{"truth-table / integer-arithmetic reference is correct", "coefficients outside [-3..3] and more than 5 variables are not covered"}
@@ -345,6 +345,22 @@ func (c02) Decode(raw json.RawMessage) (core.Case, error) {
 }
 func (c02) Enumerate(tier string, seed int64, yield func(string, core.Case) bool) {
 	if !enumConstraintSets(tier, func(fam string, p Prob) bool { return yield(fam, ProbCase{P: p, Dev: 1}) }) {
+		return
+	}
+	// the caller keeps and reuses its constraint values (front "pb2"): a PBConstr value listed twice, and the list
+	// parsed twice; on the PB singles, singles with units, pairs and the decreasing-coefficient family
+	if !enumConstraintSets(tier, func(fam string, p Prob) bool {
+		if p.Front != "pb" {
+			return true
+		}
+		q := p
+		q.Front = "pb2"
+		if !yield(fam+"/reused", ProbCase{P: q, Dev: 0}) {
+			return false
+		}
+		q.Cs = append(cpCons(p.Cs[0]), cpCons(p.Cs...)...)
+		return yield(fam+"/reused", ProbCase{P: q, Dev: 0})
+	}) {
 		return
 	}
 	// several constraints sharing watched literals: seeded catalogues of clause/cardinality mixes and
